@@ -28,7 +28,9 @@ Record quirks := {
   q_sentinel : bool;        (* close() enqueues the None end marker (threaded) *)
   q_read_timeout : bool;    (* the WebSocket reader gives up ping_interval + ping_timeout after it started waiting (asyncio) *)
   q_concurrent_disc : bool; (* disconnect() of all sessions closes them concurrently (asyncio) instead of one after the other *)
-  q_batch_timers : bool     (* all timers due at the same instant fire before any woken task runs (asyncio's loop iteration) *)
+  q_batch_timers : bool;    (* all timers due at the same instant fire before any woken task runs (asyncio's loop iteration) *)
+  q_timeout_wins : bool     (* a blocked get whose timeout has fired never takes an item, even if one arrived meanwhile
+                               (asyncio.wait_for cancels the getter); queue.Queue / SimQueue re-check the queue first *)
 }.
 Record config := {
   c_interval : Z; c_timeout : Z;             (* ping_interval, ping_timeout in ticks *)
@@ -362,7 +364,7 @@ Inductive pres := PBlocked | PEmpty | PGot (l : list spkt).
 (* one attempt of the blocking get by task `me`; tout = its timer has fired *)
 Definition poll_attempt (me : tid) (tout : bool) (i : sid) (k : pollk) (t : timer) : M pres :=
   ss <- gsess i ;;
-  match s_q ss with
+  match (if tout && q_timeout_wins (c_quirks cfg) then [] else s_q ss) with
   | [] =>
     if tout then (upd i (fun x => w_getters (nrem me (s_getters x)) x) ;;; ret PEmpty)
     else
